@@ -415,6 +415,55 @@ def conc_text(r):
                 r["missed_p"], r["live_p"], conc_addressed(r)))
 
 
+# ------------------------------------------------------------------ the offset-id generator (Adapter/Yeast.v)
+YHDR = "From Coq Require Import List NArith.\nFrom SioV Require Import Adapter.Yeast Adapter.YeastCheck.\nImport ListNotations.\n"
+
+
+def yeast_suite(ctx, vh, n_enc, n_calls, bursts):
+    """Encode/Decode on boundary + random values below 2^53, and bursts of Yeast() calls laid across a change
+    of the Unix second: the model must return the same strings; oracle = ids pairwise distinct."""
+    t0 = time.time()
+    enc = ctx.vh_jsonl(vh, "yeast", ["-mode", "enc", "-seed", ctx.seed, "-n", n_enc])
+    runs = ctx.vh_jsonl(vh, "yeast", ["-mode", "run", "-n", n_calls, "-bursts", bursts])
+    ctx.note("suite yeast: harness %.1fs" % (time.time() - t0))
+    if enc is None or runs is None:
+        return
+    eterms = ["mkYE %s %s %s %s" % (gN(r["n"]), nl(r["s"]), gN(max(r["dec"], 0)), gbool(r["err"] or r["dec"] < 0))
+              for r in enc]
+    rterms = ["mkYR %s %s" % (nl(r["ts"]), glist(nl(i) for i in r["ids"])) for r in runs]
+    for r in enc:
+        ctx.count(1, nontrivial_key=("yenc", r["n"]) if r["n"] >= 64 else None, dist="yeast:enc:%ddigits" % len(r["s"]))
+    for r in runs:
+        ctx.count(1, nontrivial_key=("yrun", tuple(r["ts"][:1]), len(r["ts"])) if r["resets"] else None,
+                  dist="yeast:run:%d-clock-changes" % r["resets"])
+    if runs:
+        ctx.sample({"suite": "yeast/run", "calls": len(runs[0]["ts"]), "clock_changes": runs[0]["resets"],
+                    "first_ids": ["".join(map(chr, i)) for i in runs[0]["ids"][:3]]}, limit=2)
+    bad_enc = ctx.coq_eval_cases("yeast_enc", YHDR, eterms, "agree_enc", shard=300)
+    bad_run = ctx.coq_eval_cases("yeast_run", YHDR, rterms, "agree_run", shard=4)
+    bad_orc = ctx.coq_eval_cases("yeast_oracle", YHDR, rterms, "oracle_run", shard=4)
+    crossed = sum(1 for r in runs if r["resets"])
+    ctx.obligation("correspondence:yeast/enc", "correspondence", not bad_enc,
+                   "%d values below 2^53 (Encode, Decode of the result), %d disagree" % (len(enc), len(bad_enc)))
+    ctx.obligation("correspondence:yeast/run", "correspondence", not bad_run and crossed > 0,
+                   "%d bursts of %d Yeast() calls, %d across a change of the second, %d disagree" % (
+                       len(runs), n_calls, crossed, len(bad_run)))
+    ctx.obligation("oracle:yeast/run", "oracle", not bad_orc, "%d bursts, %d with a repeated id" % (len(runs), len(bad_orc)))
+    for i in bad_orc[:1]:
+        ids = ["".join(map(chr, x)) for x in runs[i]["ids"]]
+        dup = sorted(set(x for x in ids if ids.count(x) > 1))[:3]
+        ctx.violation("offset-id generator handed out the same id twice under a non-decreasing clock: %s "
+                      "(a later packet carries an earlier packet's offset: a restore from it replays the wrong suffix)" % dup,
+                      {"kind": "failing-input", "engine": "yeast -mode run", "case": runs[i]})
+    if (bad_enc or bad_run or not crossed) and not bad_orc:
+        what = ("Encode(%d) -> %r" % (enc[bad_enc[0]]["n"], "".join(map(chr, enc[bad_enc[0]]["s"])))) if bad_enc else (
+            "burst %d" % bad_run[0] if bad_run else "no burst crossed a change of the second")
+        ctx.violation("the offset-id generator no longer computes what the model Adapter/Yeast.v computes (%s); "
+                      "theorem C08_offset_ids_distinct is about the model" % what,
+                      {"kind": "correspondence-broken", "suite": "yeast", "theorems": ["C08_offset_ids_distinct"],
+                       "case": enc[bad_enc[0]] if bad_enc else (runs[bad_run[0]] if bad_run else None)}, no_input=True)
+
+
 # ------------------------------------------------------------------ clean-up passes / broadcasts inside the restore's filter loop
 RHDR = "From SioV Require Import Base.GoSem Adapter.Session Adapter.SessionCheck Adapter.SessionSlice Adapter.SessionSliceCheck.\n"
 
@@ -497,10 +546,12 @@ def run(ctx):
                    "hand-written model Adapter/Session.v tied by kernel-evaluated correspondence",
                    "harness cmd/vh session + hooks adapter/adapter_session_aware_verif.go, yield point session-cleaner",
                    "wall clock read by the adapter: compared through abstract ticks with a half-tick safety margin"]
-    ctx.assumptions = ["yeast offset ids handed out along a history are pairwise distinct (checked on every history)",
-                       "time.Now() is non-decreasing"]
+    ctx.assumptions = ["yeast offset ids handed out along a history are pairwise distinct: proved for the generator's "
+                       "model (C08_offset_ids_distinct, tied by suite yeast) under the next assumption, and checked on "
+                       "every history",
+                       "time.Now() is non-decreasing (necessary: C08_offset_ids_backwards_clock_refuted)"]
     t0 = time.time()
-    ctx.proofs(modules=["Adapter/SessionCheck", "Adapter/SessionConcCheck", "Adapter/SessionSliceCheck"])
+    ctx.proofs(modules=["Adapter/SessionCheck", "Adapter/SessionConcCheck", "Adapter/SessionSliceCheck", "Adapter/YeastCheck"])
     ctx.note("proofs+audit %.1fs" % (time.time() - t0))
     t0 = time.time()
     vh = ctx.go_build()
@@ -515,6 +566,8 @@ def run(ctx):
         return not only or name in only
     if only:
         ctx.note("restricted to suites %s" % only)
+    if want("yeast"):
+        yeast_suite(ctx, vh, 300 if q else 6000, 400 if q else 3000, 2 if q else 4)
     if want("exhaustive"):
         history_suite(ctx, vh, "exhaustive", ["-mode", "exhaustive", "-len", 4 if q else 5])
     if want("random"):
